@@ -89,6 +89,14 @@ def generate(seed, index, tier):
     if ch.coin(0.1):
         opts["transform"] = "scale(2)"
     case["opts"] = opts
+    # history independence: an unrelated document parsed between two parses of this one
+    if index % 6 == 2:
+        pch = core.Chooser(seed ^ 0xD0C)
+        pdoc = gd.gen_doc(pch, max_elems=6, max_depth=2, use_heavy=pch.coin(0.5))
+        gd.apply_faults(pch, pdoc, pch.int(0, 2), pch.choice(["use", "transform", "colour", None]))
+        # make sure it has a style sheet and colliding ids: the state most likely to be kept by mistake
+        pdoc["kids"].insert(0, {"tag": "style", "attrs": {"data-n": "9001"}, "kids": [], "text": "rect { fill: #0a0b0c; stroke: lime } .c1 { stroke-width: 7 } #e1 { fill: orange } * { stroke-opacity: 0.3 }", "n": 9001})
+        case["poison"] = gd.serialise(pdoc)
     case["steps"] = bool(index % 4 == 1)
     return case
 
@@ -221,6 +229,27 @@ def execute(case, se, out, trace):
         ok, msg = ob.records_equal(a, b, rel=1e-9)
         if not ok:
             raise V("isolation", [msg.split(" ")[0].rstrip(":"), f0["tag"], f0["attr"], f0["kind"]], "element data-n=%s (%s) differs from the parse without the offending element(s): %s; faults %s" % (a["n"], a["cls"], msg, _fdesc(faults)))
+    if case.get("poison"):
+        first = ob.observe_doc(se, svg)
+        try:
+            se.SVG.parse(io.StringIO(case["poison"]))
+        except Exception:
+            pass
+        out.count("fault:poison-parse-between")
+        try:
+            svg2 = deliver_and_parse(se, xml, case["delivery_ref"], out, {}, **case.get("opts", {}))
+        except Exception as e:
+            if core.is_harness_exc(e):
+                raise
+            raise V("history", ["raises", type(e).__name__, core.exc_sig(e)[1]], "the same document parsed at first and raised %r after an unrelated document was parsed: the result depends on earlier calls" % e)
+        second = ob.observe_doc(se, svg2)
+        if [r["n"] for r in first] != [r["n"] for r in second]:
+            raise V("history", ["sequence"], "the same document gave elements %s at first and %s after an unrelated document was parsed" % ([r["n"] for r in first], [r["n"] for r in second]))
+        for a, b in zip(first, second):
+            ok, msg = ob.records_equal(a, b, rel=1e-12)
+            if not ok:
+                raise V("history", [msg.split(" ")[0].rstrip(":")], "element data-n=%s differs between two parses of the same document with an unrelated parse in between: %s" % (a["n"], msg))
+        out.count("probe:history-independence-checked")
     out.count("probe:isolation-compared", 1)
     out.count("probe:elements-compared", len(R))
     if E - {str(n) for n in offending}:
@@ -285,4 +314,8 @@ def shrink(case):
     if case.get("steps"):
         c = _copy.deepcopy(case)
         c["steps"] = False
+        yield c
+    if case.get("opts"):
+        c = _copy.deepcopy(case)
+        c["opts"] = {}
         yield c
